@@ -641,6 +641,9 @@ func init() {
 				return nil, Errf("error in top, no int given")
 			}
 			l := lst(r)
+			if n < 0 {
+				in.Unspecified = true
+			}
 			if n >= 0 && len(l.Items) >= int(n) {
 				return &List{Items: l.Items[:n], Unordered: l.Unordered}, nil
 			}
@@ -652,6 +655,9 @@ func init() {
 				return nil, Errf("error in skip, no int given")
 			}
 			l := lst(r)
+			if n < 0 {
+				in.Unspecified = true
+			}
 			if int(n) <= 0 {
 				return &List{Items: l.Items, Err: l.Err, Unordered: l.Unordered}, nil
 			}
@@ -742,7 +748,114 @@ func init() {
 			if err != nil {
 				return nil, err
 			}
+			if DeepUnordered(r) {
+				in.OrderLeak = true
+			}
 			return Str(s), nil
+		}),
+		"linearReg": m(2, func(in *Interp, r Value, a []Value) (Value, error) {
+			fx, err := wantFn("linearReg", a, 0, 1)
+			if err != nil {
+				return nil, err
+			}
+			fy, err := wantFn("linearReg", a, 1, 1)
+			if err != nil {
+				return nil, err
+			}
+			l := lst(r)
+			var sx, sy, sxx, sxy float64
+			n := 0
+			xs := map[float64]bool{}
+			for _, v := range l.Items {
+				x, err := floatOf(in, fx, v)
+				if err != nil {
+					return nil, err
+				}
+				y, err := floatOf(in, fy, v)
+				if err != nil {
+					return nil, err
+				}
+				sx += x
+				sy += y
+				sxx += x * x
+				sxy += x * y
+				xs[x] = true
+				n++
+			}
+			if l.Err != nil {
+				return nil, l.Err
+			}
+			if len(xs) < 2 {
+				in.Unspecified = true // fewer than two different x values: 0/0
+			}
+			in.Rounded = true
+			fn := float64(n)
+			ca := (sxy - sx*sy/fn) / (sxx - sx*sx/fn)
+			cb := (sy - ca*sx) / fn
+			line := &Closure{N: 1, Call: func(args []Value) (Value, error) {
+				x, ok := ToFloat(args[0])
+				if !ok {
+					return nil, Errf("argument in linear needs to be a float")
+				}
+				return Float(ca*x + cb), nil
+			}}
+			return &Map{Keys: []string{"a", "b", "lineFunc"}, Vals: []Value{Float(ca), Float(cb), line}}, nil
+		}),
+		"createInterpolation": m(2, func(in *Interp, r Value, a []Value) (Value, error) {
+			fx, err := wantFn("createInterpolation", a, 0, 1)
+			if err != nil {
+				return nil, err
+			}
+			fy, err := wantFn("createInterpolation", a, 1, 1)
+			if err != nil {
+				return nil, err
+			}
+			l := lst(r)
+			type pt struct{ x, y float64 }
+			var pts []pt
+			for _, v := range l.Items {
+				x, err := floatOf(in, fx, v)
+				if err != nil {
+					return nil, err
+				}
+				if len(pts) > 0 && x <= pts[len(pts)-1].x {
+					return nil, Errf("x values in interpolation need to be increasing")
+				}
+				y, err := floatOf(in, fy, v)
+				if err != nil {
+					return nil, err
+				}
+				pts = append(pts, pt{x, y})
+			}
+			if l.Err != nil {
+				return nil, l.Err
+			}
+			if len(pts) < 2 {
+				in.Unspecified = true
+			}
+			in.Rounded = true
+			return &Closure{N: 1, Call: func(args []Value) (Value, error) {
+				x, ok := ToFloat(args[0])
+				if !ok {
+					return nil, Errf("argument in interpolation needs to be a float")
+				}
+				if len(pts) == 0 {
+					return nil, Errf("no points")
+				}
+				if x <= pts[0].x {
+					return Float(pts[0].y), nil
+				}
+				if x >= pts[len(pts)-1].x {
+					return Float(pts[len(pts)-1].y), nil
+				}
+				for i := 1; i < len(pts); i++ {
+					if x < pts[i].x {
+						p0, p1 := pts[i-1], pts[i]
+						return Float(p0.y + (p1.y-p0.y)*((x-p0.x)/(p1.x-p0.x))), nil
+					}
+				}
+				return Float(pts[len(pts)-1].y), nil
+			}}, nil
 		}),
 		"multiUse": m(1, func(in *Interp, r Value, a []Value) (Value, error) {
 			mm, ok := a[0].(*Map)
@@ -977,9 +1090,9 @@ func groupBy(in *Interp, name string, l *List, a []Value, conv func(Value) (Valu
 	if l.Err != nil {
 		return nil, l.Err
 	}
-	out := &List{Unordered: hashed}
+	out := &List{Unordered: hashed || l.Unordered}
 	for _, g := range groups {
-		out.Items = append(out.Items, &Map{Keys: []string{"key", "values"}, Vals: []Value{g.key, &List{Items: g.vals}}})
+		out.Items = append(out.Items, &Map{Keys: []string{"key", "values"}, Vals: []Value{g.key, &List{Items: g.vals, Unordered: l.Unordered}}})
 	}
 	return out, nil
 }
@@ -1083,4 +1196,43 @@ func order(in *Interp, name string, l *List, a []Value, rev bool) (Value, error)
 	}
 	in.SortUsed = true
 	return &List{Items: out}, nil
+}
+
+
+func floatOf(in *Interp, f *Closure, v Value) (float64, error) {
+	r, err := in.Apply(f, []Value{v})
+	if err != nil {
+		return 0, err
+	}
+	x, ok := ToFloat(r)
+	if !ok {
+		return 0, Errf("not a float: %s", TypeName(r))
+	}
+	return x, nil
+}
+
+// DeepUnordered reports whether the value contains a list or map of more than one
+// entry whose order is unspecified.
+func DeepUnordered(v Value) bool {
+	switch x := v.(type) {
+	case *List:
+		if x.Unordered && len(x.Items) > 1 {
+			return true
+		}
+		for _, it := range x.Items {
+			if DeepUnordered(it) {
+				return true
+			}
+		}
+	case *Map:
+		if x.Unordered && len(x.Keys) > 1 {
+			return true
+		}
+		for _, it := range x.Vals {
+			if DeepUnordered(it) {
+				return true
+			}
+		}
+	}
+	return false
 }
